@@ -294,6 +294,9 @@ pub struct RunReport {
     pub violations: Vec<Violation>,
     pub harness_errors: Vec<String>,
     pub digest: u64,
+    /// digest of the operation results only (independent of schedule, seam-event
+    /// counts and build variant): comparable across processes and builds
+    pub results_digest: u64,
     pub switch_digest: u64,
     pub stats: RunStats,
     pub skipped: Option<String>,
@@ -330,6 +333,16 @@ fn classify(stats: &mut RunStats, o: &Outcome) {
             }
         }
         _ => {}
+    }
+}
+
+/// digest of an outcome as far as the verdict looks at it (panic / build-error
+/// messages excluded)
+pub fn outcome_digest(o: &Outcome) -> u64 {
+    match o {
+        Outcome::Panicked(_) => 0x9a1c,
+        Outcome::BuildErr(_) => 0xb1de,
+        o => hash_str(&format!("{:?}", o)),
     }
 }
 
@@ -537,6 +550,7 @@ pub fn run_scenario(sc: &Scenario, opts: &RunOpts) -> RunReport {
                 violations,
                 harness_errors,
                 digest: 0,
+                results_digest: 0,
                 switch_digest: 0,
                 stats,
                 skipped: None,
@@ -633,9 +647,16 @@ pub fn run_scenario(sc: &Scenario, opts: &RunOpts) -> RunReport {
 
     // ---- oracle -----------------------------------------------------------------
     let mut digest = ss.digest;
+    let mut results_digest = 0x7e57u64;
     for (ci, recs) in all.iter().enumerate() {
         for (oi, r) in recs.iter().enumerate() {
             stats.ops += 1;
+            // an injected unwind fires at a seam-event index, and event numbering
+            // differs between build variants (hash-key / logger events): its own
+            // outcome is not comparable across builds and is left out
+            if !matches!(&sc.clients[ci].ops[oi], Op::Aborted { .. }) {
+                results_digest = mix(mix(mix(results_digest, ci as u64), oi as u64), outcome_digest(&r.outcome));
+            }
             let op = &sc.clients[ci].ops[oi];
             if matches!(op, Op::Restart { .. }) {
                 stats.restarts += 1;
@@ -740,6 +761,7 @@ pub fn run_scenario(sc: &Scenario, opts: &RunOpts) -> RunReport {
         violations,
         harness_errors,
         digest,
+        results_digest,
         switch_digest: ss.digest,
         stats,
         skipped: None,
@@ -752,6 +774,7 @@ fn skipped(why: String) -> RunReport {
         violations: vec![],
         harness_errors: vec![],
         digest: 0,
+        results_digest: 0,
         switch_digest: 0,
         stats: RunStats::default(),
         skipped: Some(why),
